@@ -75,10 +75,10 @@ var c19VarSets = []map[string]func() *variants.Variant{
 	{"a": func() *variants.Variant { return variants.VariantFromInteger(1) }, "b": func() *variants.Variant { return variants.VariantFromInteger(2) }, "c": func() *variants.Variant {
 		return variants.VariantFromArray([]*variants.Variant{variants.VariantFromInteger(1), variants.VariantFromInteger(2), variants.VariantFromInteger(3)})
 	}, "d": func() *variants.Variant { return variants.VariantFromInteger(4) }},
-	{"a": func() *variants.Variant { return variants.VariantFromString("x") }, "b": func() *variants.Variant { return variants.VariantFromFloat(2.5) }, "c": func() *variants.Variant { return variants.VariantFromInteger(3) }, "d": func() *variants.Variant { return variants.EmptyVariant() }},
+	{"a": func() *variants.Variant { return variants.VariantFromDouble(1.5) }, "b": func() *variants.Variant { return variants.VariantFromFloat(2.5) }, "c": func() *variants.Variant { return variants.VariantFromInteger(3) }, "d": func() *variants.Variant { return variants.EmptyVariant() }},
 	{"a": func() *variants.Variant {
 		return variants.VariantFromArray([]*variants.Variant{variants.VariantFromInteger(5), variants.VariantFromString("y")})
-	}, "b": func() *variants.Variant { return variants.VariantFromInteger(1) }, "c": func() *variants.Variant { return variants.VariantFromBoolean(true) }, "d": func() *variants.Variant { return variants.VariantFromInteger(0) }},
+	}, "b": func() *variants.Variant { return variants.VariantFromString("x") }, "c": func() *variants.Variant { return variants.VariantFromDouble(3) }, "d": func() *variants.Variant { return variants.VariantFromInteger(0) }},
 }
 
 func c19Vars(k int) *variables.VariableCollection {
